@@ -27,7 +27,7 @@ PROPS = {
         "level_text": "Proved: the junction encoding names exactly the two facing contig ends in a canonical order, is invariant under whole-scaffold reversal and injective on unordered end pairs (lemma over the contracts). The equality of the reported counts with an independent recount over whole remapping runs is bounded.",
         "level_note": "Trusted: pyvc encoding, SMT solvers. Scaffold.fragment_junction_set / make_stats / cut counting over the pipeline are covered by the bounded tier only.",
         "lemmas": ["c11_junction_reversal_invariant"],
-        "bounded": [],
+        "bounded": [("bounded.c11", {})],
         "trusted": PREDICATE_TRUSTED,
         "assumptions": [],
         "explanation": "junction encoding proved reversal-invariant and injective on unordered pairs of facing ends; the counts over whole remapping runs are bounded",
@@ -154,6 +154,81 @@ PROPS["C15"] = {
     "trusted": PREDICATE_TRUSTED + ["POSIX rename atomicity; Path.stat().st_mtime / Path.exists() read the ghost path model", "monotone clock: a rewritten FASTA gets an mtime not earlier than any existing cache file"],
     "assumptions": ["the FASTA is not rewritten while an indexing run of its old content is still writing caches (histories are sequential with respect to FASTA edits, as in the property's quantifier)"],
     "explanation": "acceptance test and atomic writer proved; invariant lemma over contracts; real crash points and interleavings bounded",
+}
+
+PIPE_TRUSTED = LIST_TRUSTED + [
+    "sorted(list, key=f): a stable permutation ordered by the key, same total row length (builtin axioms)",
+    "object identity of Fragment rows through allocation stamps; Gap identity not modelled",
+]
+PIPE_NOTE = ("The remapping pipeline is a heap of aliased mutable overlap results driven by interacting heuristics (OverhangResolver.make_fixes, "
+             "discard_overhanging_fragments, store_fragments_found, assemblies_with_scaffolds_fused, ChrNamer): those functions have no contract within reach "
+             "of the engine and the whole-pipeline clause is decided by the bounded tier (PretextView-model generator, exhaustive small scopes + seeded larger ones).")
+
+PROPS["C01"] = {
+    "level": "other",
+    "technique": "deductive verification of the local lemmas that carry conservation (lookup returns source rows, trims produce sub-intervals, the cut QC is a sound gate, cut_fragments' pieces add up) + bounded base-by-base conservation oracle over PretextView-model and perturbed maps",
+    "level_text": "Proved: find_overlaps returns a window of the input scaffold's own row objects; discard/trim operations keep rows a sub-run of that window; trim_fragment returns a sub-interval of the trimmed contig under its name; qc_sub_fragments returns normally only if the pieces, sorted, abut pairwise, start at the contig's start and end at its end (exact partition) and otherwise raises; cut_fragments makes one such piece per overlap result, all sub-intervals, lengths adding up to the contig. Bounded: the composition over the whole run (every base of every input contig in exactly one output fragment across all output assemblies; errors instead of silent loss for perturbed maps).",
+    "level_note": PIPE_NOTE,
+    "lemmas": [],
+    "bounded": [("bounded.c01", {})],
+    "trusted": PIPE_TRUSTED,
+    "assumptions": ["overlap results handed to cut_fragments are non-empty (holds by construction in find_assembly_overlaps: bounded)"],
+    "explanation": "key local lemmas proved, composition bounded",
+}
+PROPS["C02"] = {
+    "level": "other",
+    "technique": "deductive verification of the local arithmetic of the layout heuristics (error length, large-overhang rule, cut-to-bait in trim_fragment for both strands, orientation of to_scaffold) + bounded layout oracle on PretextView-model edit scripts",
+    "level_text": "Proved: error_length == 1 + floor(bp per texel); trim_large_overhangs discards the first row iff its overhang exceeds the error length and its overlap with the bait is shorter than the error length (unless it is the only row of a bait longer than the error length), and the last row only if its overhang exceeds it; trim_fragment cuts a terminal contig exactly to the bait boundary in scaffold coordinates for either strand (start == bait.start / end == bait.end whenever it cuts) and leaves a sub-interval; fragment_start_if_trimmed is the start such a cut would give; to_scaffold reverses iff the bait is on the minus strand. Bounded: that every PretextView-model script completes and the interior of each piece ends up as one collinear run (the statement's main clause), incl. cuts inside reverse-strand contigs (defect fixed in 54286d9, regression R-C02).",
+    "level_note": PIPE_NOTE + " cut_fragments' choice of keep flags per strand (the site of the repaired defect) is covered by the bounded tier; its contract here is the conservation one (C01).",
+    "lemmas": [],
+    "bounded": [("bounded.c02", {})],
+    "trusted": PIPE_TRUSTED + ["bp_per_texel is read as the real number the header literal denotes (no IEEE rounding)"],
+    "assumptions": [],
+    "explanation": "local arithmetic proved, layout clause bounded",
+}
+PROPS["C07"] = {
+    "level": "other",
+    "technique": "deductive verification of Scaffold.append_scaffold (gap inserted iff joining onto existing rows), of the no-terminal-gap invariant of overlap results, of to_scaffold; bounded gap oracle over remapping runs",
+    "level_text": "Proved: append_scaffold inserts the given gap exactly when a gap is given and the scaffold already has rows, keeps the existing rows and appends the other scaffold's rows in order; find_overlaps and every trimming operation leave first and last rows that are contigs (no output piece begins or ends with a gap); to_scaffold keeps or exactly reverses the rows. Bounded: the gap rule of scaffolds_fused_by_name and add_missing_scaffolds_from_input over whole runs (adjacency only where the input had it, input gap only between its own neighbours, join gap elsewhere) - the two sites of the repaired defects (0f837d3, 7fa0cee).",
+    "level_note": PIPE_NOTE,
+    "lemmas": [],
+    "bounded": [("bounded.c07", {})],
+    "trusted": PIPE_TRUSTED,
+    "assumptions": [],
+    "explanation": "join primitive and terminal-row invariant proved, pipeline gap rule bounded",
+}
+PROPS["C08"] = {
+    "level": "other",
+    "technique": "lemma over the proved contracts of find_overlaps and trim_large_overhangs (an unedited scaffold is found whole and nothing is trimmed) + bounded null-map oracle",
+    "level_text": "Proved (lemma over contracts, real arithmetic on the texel size): for a bait [1, E] with |E - T| < bp per texel on a scaffold of length T whose first and last rows are contigs and whose last contig is at least one texel long, the lookup returns all rows with span [1, T] and the large-overhang rule (error length 1 + floor(bpt)) discards nothing. Bounded: that nothing else in the pipeline changes names, order, gaps or statistics for a null map, and the painted variant.",
+    "level_note": PIPE_NOTE,
+    "lemmas": ["c08_unedited_scaffold_is_found_whole"],
+    "bounded": [("bounded.c08", {})],
+    "trusted": PIPE_TRUSTED,
+    "assumptions": ["side conditions of the statement (whole, uncut, unpainted, untagged; last contig >= one texel)"],
+    "explanation": "lookup/trim lemma proved, rest bounded",
+}
+PROPS["C09"] = {
+    "level": "other",
+    "technique": "deductive verification of ScaffoldNamer.label_scaffold (decision table of destination tags, rank, haplotype) + bounded routing oracle per piece over tagged PretextView-model maps",
+    "level_text": "Proved: label_scaffold tags a piece FalseDuplicate, Haplotig or Contaminant exactly as its own tags say (in that precedence), tags it Contaminant in Target mode when the Pretext scaffold has no Target tag, gives such pieces rank 3, leaves other pieces untagged with the scaffold's rank, and records the current haplotype. Bounded: fusion by (tag, haplotype, name), routing of fused scaffolds to assemblies, Target-mode treatment of sequence absent from the map, name-derived haplotypes. Known findings: C09-name-derived-haplotype, C09-haplotype-prefix-name-shape.",
+    "level_note": PIPE_NOTE,
+    "lemmas": [],
+    "bounded": [("bounded.c09", {})],
+    "trusted": PIPE_TRUSTED,
+    "assumptions": [],
+    "explanation": "tag decision table proved, routing bounded",
+}
+PROPS["C10"] = {
+    "level": "other",
+    "technique": "deductive verification of the name counters and of the output sort key (rank, natural key) + bounded naming/ordering/CSV oracle over tagged maps",
+    "level_text": "Proved: haplotig and unloc names are taken from strictly increasing counters (each number used once), the output order key is (rank, natural name key) with rank first (C20 contracts), label_scaffold assigns rank 3 to special pieces. Bounded: uniqueness of names per assembly, chromosome numbering by size without holes, unloc/haplotig ranking, CSV. Known findings: C10-unloc-rank-precut-length, C10-unloc-number-hole, C10-unloc-only-chromosome-csv.",
+    "level_note": PIPE_NOTE,
+    "lemmas": [],
+    "bounded": [("bounded.c10", {})],
+    "trusted": PIPE_TRUSTED,
+    "assumptions": [],
+    "explanation": "counters and sort key proved, naming rules bounded",
 }
 
 NOT_APPLICABLE = {}
